@@ -320,11 +320,19 @@ fn parse_compressed<'a>(input: &'a [u8], cache: &AtomCache) -> NomResult<'a, Own
         return Err(nom::Err::Failure(NomError::new(input, ErrorKind::TooLarge)));
     }
 
+    // Reserve in proportion to the input, not to the declared size, and never inflate
+    // past what the input declares.
     let mut decoder = ZlibDecoder::new(rest);
-    let mut decompressed = Vec::with_capacity(uncompressed_size as usize);
+    let mut decompressed =
+        Vec::with_capacity((uncompressed_size as usize).min(rest.len().saturating_mul(4)));
     decoder
+        .by_ref()
+        .take(uncompressed_size as u64 + 1)
         .read_to_end(&mut decompressed)
         .map_err(|_| nom::Err::Failure(NomError::new(input, ErrorKind::Fail)))?;
+    if decompressed.len() > uncompressed_size as usize {
+        return Err(nom::Err::Failure(NomError::new(input, ErrorKind::Fail)));
+    }
     let consumed = decoder.total_in() as usize;
 
     let owned_term = match parse_term(&decompressed, cache) {
@@ -390,7 +398,7 @@ fn parse_new_reference_ext<'a>(input: &'a [u8], cache: &AtomCache) -> NomResult<
         return Err(nom::Err::Failure(NomError::new(input, ErrorKind::Tag)));
     };
     let (input, creation) = be_u8(input)?;
-    let mut ids = Vec::with_capacity(len as usize);
+    let mut ids = Vec::with_capacity((len as usize).min(input.len() / 4));
     let mut remaining = input;
     for _ in 0..len {
         let (rest, id) = be_u32(remaining)?;
@@ -576,7 +584,7 @@ fn parse_small_tuple<'a>(input: &'a [u8], cache: &AtomCache) -> NomResult<'a, Ow
         return Err(nom::Err::Failure(NomError::new(input, ErrorKind::TooLarge)));
     }
     let mut remaining = input;
-    let mut elements = Vec::with_capacity(arity as usize);
+    let mut elements = Vec::with_capacity((arity as usize).min(input.len()));
 
     for _ in 0..arity {
         let (new_remaining, term) = parse_term(remaining, cache)?;
@@ -593,7 +601,7 @@ fn parse_large_tuple<'a>(input: &'a [u8], cache: &AtomCache) -> NomResult<'a, Ow
         return Err(nom::Err::Failure(NomError::new(input, ErrorKind::TooLarge)));
     }
     let mut remaining = input;
-    let mut elements = Vec::with_capacity(arity as usize);
+    let mut elements = Vec::with_capacity((arity as usize).min(input.len()));
 
     for _ in 0..arity {
         let (new_remaining, term) = parse_term(remaining, cache)?;
@@ -620,7 +628,7 @@ fn parse_list<'a>(input: &'a [u8], cache: &AtomCache) -> NomResult<'a, OwnedTerm
         return Err(nom::Err::Failure(NomError::new(input, ErrorKind::TooLarge)));
     }
     let mut remaining = input;
-    let mut elements = Vec::with_capacity(len as usize);
+    let mut elements = Vec::with_capacity((len as usize).min(input.len()));
 
     for _ in 0..len {
         let (new_remaining, term) = parse_term(remaining, cache)?;
@@ -742,7 +750,7 @@ fn parse_newer_reference<'a>(input: &'a [u8], cache: &AtomCache) -> NomResult<'a
     let (input, creation) = be_u32(input)?;
 
     let mut remaining = input;
-    let mut ids = Vec::with_capacity(len as usize);
+    let mut ids = Vec::with_capacity((len as usize).min(input.len() / 4));
     for _ in 0..len {
         let (new_remaining, id) = be_u32(remaining)?;
         ids.push(id);
@@ -828,7 +836,7 @@ fn parse_new_fun_ext<'a>(input: &'a [u8], cache: &AtomCache) -> NomResult<'a, Ow
     };
 
     let mut remaining = input;
-    let mut free_vars = Vec::with_capacity(num_free as usize);
+    let mut free_vars = Vec::with_capacity((num_free as usize).min(input.len()));
     for _ in 0..num_free {
         let (new_remaining, term) = parse_term(remaining, cache)?;
         free_vars.push(term);
@@ -981,7 +989,7 @@ fn parse_small_tuple_borrowed<'a>(
         return Err(nom::Err::Failure(NomError::new(input, ErrorKind::TooLarge)));
     }
     let mut remaining = input;
-    let mut elements = Vec::with_capacity(arity as usize);
+    let mut elements = Vec::with_capacity((arity as usize).min(input.len()));
 
     for i in 0..arity {
         ctx.push(PathSegment::TupleElement(i as usize));
@@ -1004,7 +1012,7 @@ fn parse_large_tuple_borrowed<'a>(
         return Err(nom::Err::Failure(NomError::new(input, ErrorKind::TooLarge)));
     }
     let mut remaining = input;
-    let mut elements = Vec::with_capacity(arity as usize);
+    let mut elements = Vec::with_capacity((arity as usize).min(input.len()));
 
     for i in 0..arity {
         ctx.push(PathSegment::TupleElement(i as usize));
@@ -1037,7 +1045,7 @@ fn parse_list_borrowed<'a>(
         return Err(nom::Err::Failure(NomError::new(input, ErrorKind::TooLarge)));
     }
     let mut remaining = input;
-    let mut elements = Vec::with_capacity(len as usize);
+    let mut elements = Vec::with_capacity((len as usize).min(input.len()));
 
     for i in 0..len {
         ctx.push(PathSegment::ListElement(i as usize));
@@ -1184,7 +1192,7 @@ fn parse_newer_reference_borrowed<'a>(
     let (input, creation) = be_u32(input)?;
 
     let mut remaining = input;
-    let mut ids = Vec::with_capacity(len as usize);
+    let mut ids = Vec::with_capacity((len as usize).min(input.len() / 4));
     for _ in 0..len {
         let (new_remaining, id) = be_u32(remaining)?;
         ids.push(id);
@@ -1282,7 +1290,7 @@ fn parse_new_fun_ext_borrowed<'a>(
     };
 
     let mut remaining = input;
-    let mut free_vars = Vec::with_capacity(num_free as usize);
+    let mut free_vars = Vec::with_capacity((num_free as usize).min(input.len()));
     for i in 0..num_free {
         ctx.push(PathSegment::FunFreeVar(i as usize));
         let (new_remaining, term) = parse_term_borrowed(remaining, original_len, ctx)?;
